@@ -56,6 +56,10 @@ class Ctx:
         self._fac_cache = {}
         self.sign_oracle = None  # callable(field element) -> +1 / -1 / None
         self.unrecognised_literals = []
+        self.env_fixups = []     # callables(env) completing a numeric environment (values of Phi atoms)
+        self.phi = None
+        self.extra_smt = []      # assumptions added during interpretation (e.g. monotonicity of Phi atoms)
+        self.var_bounds = {}     # name -> (lo, hi) declared bounds (e.g. Phi atoms in (0,1))
         self.ZERO = S(self, {})
         self.ONE = S(self, {self._k0(): self.one})
         self._pospoly_cache = {}
@@ -85,7 +89,7 @@ class Ctx:
 
     # ------------------------------------------------------------------ float literals
     def lift(self, v):
-        if isinstance(v, S):
+        if isinstance(v, (S, Ext)):
             return v
         if isinstance(v, bool):
             return self.const(int(v))
@@ -99,7 +103,7 @@ class Ctx:
                 return self.const(int(v))
         f = float(v)
         if not math.isfinite(f):
-            raise Unsupported(f"non-finite literal {f}")
+            return Ext(self, "nan" if f != f else ("+inf" if f > 0 else "-inf"))
         if f == 0.0:
             return self.ZERO
         fr = Fraction(f)
@@ -273,7 +277,7 @@ class S:
         return S(ctx, {k: c for k, c in t.items() if c != 0})
 
     def _co(self, o):
-        return o if isinstance(o, S) else self.ctx.lift(o)
+        return o if isinstance(o, (S, Ext)) else self.ctx.lift(o)
 
     # ---- predicates
     def is_zero(self):
@@ -298,6 +302,8 @@ class S:
     # ---- ring operations
     def __add__(self, o):
         o = self._co(o)
+        if isinstance(o, Ext):
+            return o + self
         if not o.t:
             return self
         if not self.t:
@@ -321,13 +327,18 @@ class S:
         return S(self.ctx, {k: -c for k, c in self.t.items()})
 
     def __sub__(self, o):
-        return self + (-self._co(o))
+        o = self._co(o)
+        if isinstance(o, Ext):
+            return (-o) + self
+        return self + (-o)
 
     def __rsub__(self, o):
         return self._co(o) - self
 
     def __mul__(self, o):
         o = self._co(o)
+        if isinstance(o, Ext):
+            return o * self
         if not self.t or not o.t:
             return self.ctx.ZERO
         ctx = self.ctx
@@ -376,12 +387,16 @@ class S:
 
     def __truediv__(self, o):
         o = self._co(o)
+        if isinstance(o, Ext):
+            return o.inv() * self
         return self * o.inv()
 
     def __rtruediv__(self, o):
         return self._co(o) * self.inv()
 
     def __pow__(self, n):
+        if isinstance(n, Ext):
+            raise Unsupported("non-finite exponent")
         if isinstance(n, S):
             n = n.as_const()
             if n is None:
@@ -641,3 +656,120 @@ def sdiff(s, varname):
                 rest[H] = p - 1
             out = out + S(ctx, {(e, sq, frozenset(rest.items())): c * p * dH / ctx.K(H)})
     return out
+
+
+
+class Ext:
+    """extended value +inf / -inf / nan living inside symbolic arrays (one-sided truncation limits).
+    Arithmetic follows IEEE conventions where the sign of the finite operand is decidable, otherwise
+    the result is nan; nan is absorbing.  An Ext never reaches a verification condition."""
+    __slots__ = ("ctx", "k")
+    __array_priority__ = 2000
+
+    def __init__(self, ctx, k):
+        self.ctx, self.k = ctx, k
+
+    t = {"ext": True}     # so that 'not o.t' style tests treat it as non-zero
+
+    def _nan(self):
+        return Ext(self.ctx, "nan")
+
+    def _sgn(self):
+        return 1 if self.k == "+inf" else (-1 if self.k == "-inf" else None)
+
+    @staticmethod
+    def _sign_of(ctx, o):
+        if isinstance(o, Ext):
+            return o._sgn()
+        o = o if isinstance(o, S) else ctx.lift(o)
+        if isinstance(o, Ext):
+            return o._sgn()
+        if o.is_zero():
+            return 0
+        c = o.as_const()
+        if c is not None:
+            return 1 if c > 0 else -1
+        if len(o.t) == 1:
+            ((e, sq, ln), c), = o.t.items()
+            if not ln:
+                return ctx.sign_K(c)
+        return None
+
+    def is_zero(self): return False
+    def is_rat(self): return False
+    def as_const(self): return None
+    def variables(self): return set()
+    def __neg__(self):
+        return Ext(self.ctx, {"+inf": "-inf", "-inf": "+inf", "nan": "nan"}[self.k])
+
+    def __add__(self, o):
+        if self.k == "nan":
+            return self
+        if isinstance(o, Ext):
+            return self if o.k == self.k else self._nan()
+        return self
+    __radd__ = __add__
+
+    def __sub__(self, o):
+        return self + (-(o if isinstance(o, (S, Ext)) else self.ctx.lift(o)))
+
+    def __rsub__(self, o):
+        return (-self) + o
+
+    def __mul__(self, o):
+        if self.k == "nan":
+            return self
+        sg = Ext._sign_of(self.ctx, o)
+        if sg is None or sg == 0:
+            return self._nan()
+        return self if sg > 0 else -self
+    __rmul__ = __mul__
+
+    def inv(self):
+        return self.ctx.ZERO if self.k != "nan" else self
+
+    def __truediv__(self, o):
+        if isinstance(o, Ext):
+            return self._nan()
+        o = o if isinstance(o, S) else self.ctx.lift(o)
+        sg = Ext._sign_of(self.ctx, o)
+        if sg is None or sg == 0 or self.k == "nan":
+            return self._nan()
+        return self if sg > 0 else -self
+
+    def __rtruediv__(self, o):
+        return self.ctx.ZERO if self.k != "nan" else self
+
+    def __pow__(self, n):
+        if isinstance(n, S):
+            n = n.as_const()
+        if n is None or self.k == "nan":
+            return self._nan()
+        n = Fraction(n)
+        if n == 0:
+            return self.ctx.ONE
+        if n < 0:
+            return self.ctx.ZERO
+        if self.k == "+inf":
+            return self
+        if n.denominator != 1:
+            return self._nan()
+        return self if int(n) % 2 else -self
+
+    def sqrt(self):
+        return self if self.k == "+inf" else self._nan()
+
+    def exp(self):
+        return self if self.k == "+inf" else (self.ctx.ZERO if self.k == "-inf" else self)
+
+    def log(self):
+        return self if self.k == "+inf" else self._nan()
+
+    def evalf(self, env):
+        return {"+inf": float("inf"), "-inf": float("-inf"), "nan": float("nan")}[self.k]
+
+    def __repr__(self):
+        return self.k
+
+    def short(self, n=0):
+        return self.k
